@@ -302,9 +302,29 @@ func ms(s string) time.Duration {
 	return time.Duration(n) * time.Millisecond
 }
 
+// rep:K:p1,p2,... = K repetitions of the comma separated parts
+func expandSpec(spec string) string {
+	if !strings.Contains(spec, "rep:") {
+		return spec
+	}
+	var out []string
+	for _, p := range strings.Split(spec, "+") {
+		if strings.HasPrefix(p, "rep:") {
+			f := strings.SplitN(p, ":", 3)
+			k, _ := strconv.Atoi(f[1])
+			for i := 0; i < k; i++ {
+				out = append(out, strings.Split(f[2], ",")...)
+			}
+			continue
+		}
+		out = append(out, p)
+	}
+	return strings.Join(out, "+")
+}
+
 func buildSched(spec string) core.Schedule {
 	var parts []core.Schedule
-	for _, p := range strings.Split(spec, "+") {
+	for _, p := range strings.Split(expandSpec(spec), "+") {
 		f := strings.Split(p, ":")
 		num := func(i int) float64 { v, _ := strconv.ParseFloat(f[i], 64); return v }
 		in := func(i int) int64 { v, _ := strconv.ParseInt(f[i], 10, 64); return v }
@@ -622,7 +642,7 @@ func runCase(c string) string {
 
 func startupCount(spec string) int {
 	n := 0
-	for _, p := range strings.Split(spec, "+") {
+	for _, p := range strings.Split(expandSpec(spec), "+") {
 		f := strings.Split(p, ":")
 		at := func(i int) int { v, _ := strconv.Atoi(f[i]); return v }
 		switch f[0] {
@@ -680,6 +700,8 @@ func gen(r *vh.Rand, tier string) []string {
 		ni, ns = 3000, 3000
 		stress = 100000
 	}
+	// composite profiles of many small parts incl. empty ones: the callback must not fire at a part boundary
+	out = append(out, "fincb rep:400:once:2,once:0 6 15", "fincb rep:300:once:1,const:0:0,once:1 4 15", "fincb rep:1000:once:1 8 10")
 	out = append(out, "fincb once:50 4 200", "fincb once:1 8 300", "fincb once:0 3 100", "fincb const:2000:10 4 30",
 		"fincb once:20+const:2000:5+once:7 4 50", fmt.Sprintf("fincb unl:3600000 4 %d", stress), fmt.Sprintf("fincb unl:3600000 2 %d", stress/2))
 	for i := 0; i < ni; i++ {
@@ -706,7 +728,20 @@ func gen(r *vh.Rand, tier string) []string {
 		var T, A, shoot, cancelMs, failGun int
 		var rps string
 		shoot = r.PickInt([]int{0, 100, 500})
-		switch r.Intn(8) {
+		switch r.Intn(9) {
+		case 8: // shared composite rps profile of many small parts with empty pauses, instances racing at every boundary
+			perInst = false
+			k := r.Range(60, 150)
+			T = 3 * k
+			rps = fmt.Sprintf("rep:%d:once:3,const:0:1", k)
+			if r.Bool() {
+				T = 2 * k
+				rps = fmt.Sprintf("rep:%d:once:1,once:0,once:1,const:0:1", k)
+			}
+			A = 10000000
+			st = fmt.Sprintf("once:%d+const:100:%d", r.Range(3, 6), r.PickInt([]int{30, 50}))
+			K = startupCount(st)
+			shoot = r.PickInt([]int{0, 50})
 		case 7: // a cause occurs at once while the startup profile still has tokens for 300 ms
 			st = "once:1+const:100:300"
 			if r.Bool() {
